@@ -4,7 +4,7 @@ from __future__ import annotations
 
 import copy
 
-from .core import outcome, octs, after_pack, rxbuf, decoded
+from .core import outcome, octs, after_pack, rxbuf, decoded, scramble
 from .probe import decode_other, poison, twin
 
 KIND_ORDER = ["eof", "finished", "ack", "metadata", "nak", "prompt", "keepalive", "filedata"]
@@ -323,6 +323,7 @@ def op_lv_rt(a):
 
         def rest():
             d = CfdpLv.unpack(rxbuf(raw, a["sfx"]))
+            scramble()
             return {"octets": octs(raw), "plen": o.packet_len, "dec": octs(d.value), "dplen": d.packet_len}
         return after_pack(raw, rest)
     return outcome(run)
@@ -526,6 +527,7 @@ def op_pdu_fac(a):
         h = PduFactory.from_raw_to_holder(buf)
         for k in (a["kind"], "prompt" if a["kind"] != "prompt" else "eof"):
             decode_other("pdu:" + k, PduFactory.from_raw)
+        buf = rxbuf(raw, a["sfx"])              # (the first buffer was re-used by the probe above)
         dt = PduFactory.pdu_directive_type(buf)
         hdt = h.pdu_directive_type
         return {"cls": kind_of(d), "eq": bool(d == obj) and bool(obj == d), "repack": outcome(lambda: octs(d.pack())),
